@@ -35,6 +35,16 @@ def main():
         print(f"HARNESS: nasim imported from {nasim.__file__}, expected {want}")
         return 2
     os.environ.setdefault("HYPOTHESIS_STORAGE_DIRECTORY", tempfile.mkdtemp(prefix="nvf_hyp_"))
+    if args.pid not in ("C14", "C15", "C18"):
+        from . import draws
+        try:
+            ok = draws.selftest() and draws.dynamics_controlled()
+        except Exception as e:      # construction of the probe scenario failed: let the check itself report it
+            ok = True
+        if not ok:
+            print("HARNESS: the dynamics do not draw from the seeded NumPy global generator - "
+                  "draw-steering checks are inconclusive (not a violation)")
+            return 2
     return common.harness_guard(lambda: fn(args.tier, args.replay))
 
 
